@@ -431,3 +431,31 @@ func ParsePmt(t TsPacket) (Pmt, error) {
 	}
 	return m, nil
 }
+
+// SplitAdts splits a PES payload into ADTS frames (ISO 13818-7 §6.2): returns the raw_data_blocks.
+func SplitAdts(b []byte) (frames [][]byte, hdrs [][]byte, err error) {
+	for len(b) > 0 {
+		if len(b) < 7 || b[0] != 0xFF || b[1]&0xF6 != 0xF0 {
+			return frames, hdrs, fmt.Errorf("adts: bad syncword/layer at %x", b[:minInt(7, len(b))])
+		}
+		hl := 7
+		if b[1]&1 == 0 {
+			hl = 9
+		}
+		fl := int(b[3]&3)<<11 | int(b[4])<<3 | int(b[5])>>5
+		if fl < hl || fl > len(b) {
+			return frames, hdrs, fmt.Errorf("adts: frame_length %d with %d bytes left", fl, len(b))
+		}
+		hdrs = append(hdrs, b[:hl])
+		frames = append(frames, b[hl:fl])
+		b = b[fl:]
+	}
+	return
+}
+
+func minInt(a, b int) int {
+	if a < b {
+		return a
+	}
+	return b
+}
